@@ -121,6 +121,10 @@ type RequestSpec struct {
 	CancelAfter     int                   `json:"cancel_after,omitempty"` // cancel the request after this many data messages (0: never)
 	FinalBlocksOnly bool                  `json:"final_only,omitempty"`
 	SnapshotStores  bool                  `json:"-"` // record store content after every linear block
+	// Remote, when set, makes tier1 use real work.RemoteWorker instances talking gRPC to this tier2.
+	Remote *RemoteTier2 `json:"-"`
+	// NoExecLog: do not touch the process-wide module execution log (concurrent runs in one process).
+	NoExecLog bool `json:"-"`
 	// LinearFeed, when set, replaces the fork-free block source of the tier1 linear phase.
 	LinearFeed func(ctx context.Context, h bstream.Handler, start, stop uint64, cursor string) error `json:"-"`
 	StuckAfter      time.Duration         `json:"-"` // no job in flight and no data message for this long => stuck (default 20s)
@@ -523,6 +527,10 @@ func (c *Cluster) Run(spec RequestSpec) *Result {
 			return &simWorker{rs: rs, id: fmt.Sprintf("w%d", workerIDs.Add(1))}
 		},
 	}
+	if spec.Remote != nil {
+		rc.WorkerFactory = spec.Remote.WorkerFactory()
+		rc.ClientFactory = spec.Remote.ClientFactory()
+	}
 	req := &pbsubstreamsrpc.Request{
 		StartBlockNum:                       spec.Start,
 		StopBlockNum:                        spec.Stop,
@@ -539,7 +547,9 @@ func (c *Cluster) Run(spec RequestSpec) *Result {
 	ctx = dmetering.WithBytesMeter(ctx)
 	ctx = reqctx.WithTier2RequestParameters(ctx, c.Tier2Params())
 	ctx = native.WithTag(ctx, "tier1")
-	native.StartLog()
+	if !spec.NoExecLog {
+		native.StartLog()
+	}
 	if err := service.ValidateTier1Request(req, native.BlockType); err != nil {
 		res.Err = fmt.Errorf("validate request: %w", err)
 	} else {
@@ -581,7 +591,9 @@ func (c *Cluster) Run(spec RequestSpec) *Result {
 	}
 	// let stray goroutines (walker / worker) try to send late messages
 	time.Sleep(2 * time.Millisecond)
-	res.Execs = native.TakeLog()
+	if !spec.NoExecLog {
+		res.Execs = native.TakeLog()
+	}
 	if rs.ctl != nil {
 		rs.ctl.mu.Lock()
 		order := append([]int(nil), rs.ctl.order...)
